@@ -6,7 +6,7 @@ C10 — property theorems.  Helper lemmas live in NV/C10/Lemmas*.lean; this file
     the model of lib/efuns/call_out.c.
   * `wheelInv_always`, `sweep_catches_up`, ... : the invariants behind it, clause by clause.
 -/
-import NV.C10.LemmasUsageRun
+import NV.C10.LemmasFit
 
 namespace NV.C10
 
@@ -304,6 +304,35 @@ theorem model_satisfies_spec_int (sc : Scripts) (cmds : List Cmd)
   rw [cutAtOverflow_id h]
   exact model_satisfies_spec sc cmds
 
+/-- **the side condition follows from the number of call_outs made**: if after the history fewer than `2^31 / N`
+    handle serials are used up (`unique` counts every call_out since boot, the hook only raises it), every handle
+    printed in the history fits an `int` -/
+theorem handlesFit_of_bound (sc : Scripts) (cmds : List Cmd)
+    (hb : (runCmds sc World.init cmds).unique + 1 ≤ 2 ^ 31 / N) :
+    handlesFit (events (runCmds sc World.init cmds)) = true := by
+  have h := runCmds_hb sc init_hb cmds
+  unfold handlesFit events
+  rw [List.all_eq_true]
+  intro e he
+  have he' : e ∈ (runCmds sc World.init cmds).out := List.mem_reverse.1 he
+  have hf := h e he'
+  cases e with
+  | co t o fn d tag hd fp tp =>
+    have hm : N * ((runCmds sc World.init cmds).unique + 1) ≤ N * (2 ^ 31 / N) := Nat.mul_le_mul_left _ hb
+    have hd2 : N * (2 ^ 31 / N) ≤ 2 ^ 31 := Nat.mul_div_le _ _
+    obtain ⟨h0, h1⟩ := hf
+    simp only [decide_eq_true_eq]
+    unfold Gen.C10.trunc32
+    omega
+  | _ => rfl
+
+/-- **`model_satisfies_spec_int` under the numeric bound**: for every history that uses fewer than `2^31 / N` handle
+    serials, the history with C `int` handles is accepted by the oracle (the bound is tight: `ovf_witness` uses one more) -/
+theorem model_satisfies_spec_int_bound (sc : Scripts) (cmds : List Cmd)
+    (hb : (runCmds sc World.init cmds).unique + 1 ≤ 2 ^ 31 / N) :
+    judgeEv (eventsC (runCmds sc World.init cmds)) = [] :=
+  model_satisfies_spec_int sc cmds (handlesFit_of_bound sc cmds hb)
+
 /-- the statement without the side condition -/
 def C10_int_Full : Prop := ∀ (sc : Scripts) (cmds : List Cmd), judgeEv (eventsC (runCmds sc World.init cmds)) = []
 
@@ -316,6 +345,9 @@ theorem ovf_witness : judgeEv (eventsC (runCmds (fun _ _ => []) World.init ovfCm
 
 /-- the first call_out of the witness is still fine (non-vacuity of the side condition right below the bound) -/
 example : handlesFit (events (runCmds (fun _ _ => []) World.init (ovfCmds.take 2))) = true := by decide
+
+/-- the bound holds right below the witness: the first call_out of `ovfCmds` uses the last serial -/
+example : (runCmds (fun _ _ => []) World.init (ovfCmds.take 2)).unique + 1 ≤ 2 ^ 31 / N := by decide
 
 theorem C10_int_Full_false : ¬ C10_int_Full := fun h => ovf_witness (h _ _)
 
